@@ -69,6 +69,7 @@ def C01(F, rep, tier, cx):
     RF.S2S3(F, rep, cx.FL, {'S3'})
     RF.F3p(F, rep, cx.FL)   # container payload is what its method field says (compress <-> uncompress agree)
     RF.P4(F, rep, cx.FL)    # the stream never discards bytes that have not been read
+    RF.A1(F, rep)           # the API passes the queue's objects and its end-of-file state through unchanged
 
 
 def C02(F, rep, tier, cx):
@@ -217,7 +218,7 @@ def C09(F, rep, tier, cx):
 def C10(F, rep, tier, cx):
     """B1 every read sink bounded by its buffer; B3 container size invariant; B4 (ptr,len) pairs; B5 raw I/O on trivially copyable types;
     K10 no exception escapes a thread; K5 end of stream on all worker exits incl. catch(...); T1 progress of the decode loop; DN null checks"""
-    run_layout(F, rep, read_rules=('B1', 'B5'))
+    run_layout(F, rep, read_rules=('B1', 'B5'), extra_classes=(FILESTAT,))
     RF.E2B3(F, rep, cx.FL, {'B3', 'B4'})
     RP.K10(F, rep, cx.R, cx.FL)
     RP.K5(F, rep, cx.R, cx.FL, ('BLF', 'alloc', 'other'), 'all-edges')
@@ -286,16 +287,16 @@ PROPS = {
     'C01': dict(run=C01, level='other'),
     'C02': dict(run=C02, level='other'),
     'C03': dict(run=C03, level='other'),
-    'C04': dict(run=C04, level='other', assumptions=ASSUME_THREADS),
+    'C04': dict(run=C04, ir_crosscheck=True, level='other', assumptions=ASSUME_THREADS),
     'C05': dict(run=C05, level='other'),
-    'C06': dict(run=C06, level='other', assumptions=ASSUME_THREADS),
-    'C07': dict(run=C07, level='other', assumptions=ASSUME_THREADS),
+    'C06': dict(run=C06, ir_crosscheck=True, level='other', assumptions=ASSUME_THREADS),
+    'C07': dict(run=C07, ir_crosscheck=True, level='other', assumptions=ASSUME_THREADS),
     'C08': dict(run=C08, level='other'),
     'C09': dict(run=C09, level='other'),
-    'C10': dict(run=C10, level='other'),
-    'C11': dict(run=C11, level='other', assumptions=ASSUME_THREADS),
+    'C10': dict(run=C10, ir_crosscheck=True, level='other'),
+    'C11': dict(run=C11, ir_crosscheck=True, level='other', assumptions=ASSUME_THREADS),
     'C12': dict(run=C12, level='other'),
-    'C13': dict(run=C13, level='other'),
+    'C13': dict(run=C13, ir_crosscheck=True, level='other'),
     'C14': dict(run=C14, level='other'),
     'C16': dict(run=C16, level='other', assumptions=ASSUME_THREADS),
     'C17': dict(run=C17, level='proof'),
